@@ -21,6 +21,8 @@ pub struct Case {
     pub packed: bool,
     pub vftable: bool,
     pub ptrw: usize,
+    /// order in which size/align/packed are written (0..6), and whether they share one bracket
+    pub attr_order: u8,
 }
 
 fn ty_alphabet_full() -> Vec<Type> {
@@ -29,6 +31,7 @@ fn ty_alphabet_full() -> Vec<Type> {
         Type::ident("u16"),
         Type::ident("u32"),
         Type::ident("u64"),
+        Type::ident("u128"),
         Type::ident("bool"),
         Type::ident("u8").const_pointer(),
         Type::ident("u16").array(3),
@@ -79,6 +82,10 @@ impl Space {
             let t = self.types[take(self.types.len())].clone();
             fields.push((a, t));
         }
+        // the order of the attributes is not an independent dimension of the space; it is
+        // derived from the index so that every order occurs for every attribute combination
+        // somewhere in the sweep
+        let attr_order = ((i ^ (i >> 7) ^ (i >> 13)) % 6) as u8;
         Case {
             fields,
             size,
@@ -86,6 +93,7 @@ impl Space {
             packed,
             vftable: self.vftable,
             ptrw,
+            attr_order,
         }
     }
 }
@@ -102,16 +110,10 @@ pub fn case_to_td(c: &Case) -> TypeDefinition {
         let name = if matches!(t, Type::Unknown(_)) { "_".to_string() } else { format!("f{i}") };
         statements.push(refmodel::field(&name, t.clone(), *a, true));
     }
-    let mut attrs = vec![];
-    if let Some(s) = c.size {
-        attrs.push(Attribute::size(s));
-    }
-    if let Some(a) = c.align {
-        attrs.push(Attribute::align(a));
-    }
-    if c.packed {
-        attrs.push(Attribute::packed());
-    }
+    let mut parts: Vec<Option<Attribute>> = vec![c.size.map(Attribute::size), c.align.map(Attribute::align), c.packed.then(Attribute::packed)];
+    const ORDERS: [[usize; 3]; 6] = [[0, 1, 2], [0, 2, 1], [1, 0, 2], [1, 2, 0], [2, 0, 1], [2, 1, 0]];
+    let order = ORDERS[(c.attr_order % 6) as usize];
+    let attrs: Vec<Attribute> = order.iter().filter_map(|i| parts[*i].take()).collect();
     TypeDefinition {
         statements,
         attributes: Attributes(attrs),
@@ -344,6 +346,7 @@ pub fn random_case(rng: &mut Rng) -> Case {
         packed: rng.chance(1, 8),
         vftable: rng.chance(1, 5),
         ptrw,
+        attr_order: rng.below(6) as u8,
     }
 }
 
